@@ -48,6 +48,31 @@ pub fn observe_tree_policy_loc(text: &str, pol: DuplicateKeyPolicy) -> (N, Vec<(
     }
 }
 
+#[derive(Deserialize)]
+struct NoSuchField {
+    #[serde(default)]
+    #[allow(dead_code)]
+    zz_no_such_field_9: Option<i32>,
+}
+/// the document read into a target that discards everything: IgnoredAny, or a struct for which every key is unknown
+pub fn observe_discarding(text: &str, pol: DuplicateKeyPolicy, as_struct: bool) -> (N, Vec<(u64, u64)>) {
+    let t = text.to_string();
+    let r = guarded(move || {
+        let mut o = serde_saphyr::Options::default();
+        o.duplicate_keys = pol;
+        if as_struct {
+            serde_saphyr::from_str_with_options::<NoSuchField>(&t, o).map(|_| ())
+        } else {
+            serde_saphyr::from_str_with_options::<serde::de::IgnoredAny>(&t, o).map(|_| ())
+        }
+    });
+    match r {
+        Ok(Ok(())) => (N::leaf("ok", ""), vec![]),
+        Ok(Err(e)) => (N::errc(&classify(&e)), err_locs(&e)),
+        Err(p) => (N::errc(&format!("PANIC:{p}")), vec![]),
+    }
+}
+
 fn is_merge_key(n: &Node) -> bool {
     matches!(n, Node::Scalar { v, q, t, .. } if v == "<<" && q == "p" && t.is_empty())
 }
@@ -233,9 +258,27 @@ fn emit_all(w: &mut NdWriter, id: &str, text: &str, want: &[AEv], stats: &mut St
     let (raw, _) = raw_events(text);
     let raw = strip_doc_markers(&raw);
     let pos = if raw.iter().any(|e| e.k == "AL") { vec![] } else { raw_positions(text) };
+    // targets that discard what they read still have every mapping checked: the whole document into IgnoredAny, and (when every
+    // mapping key is a plain non-null scalar) a struct none of whose fields occurs, so that every value is an ignored one
+    let scalar_keys_only = {
+        fn ok(n: &Node) -> bool {
+            match n {
+                Node::Map { entries, .. } => entries.iter().all(|(k, v)| matches!(k, Node::Scalar { v: kv, t, .. } if t.is_empty() && !kv.is_empty() && kv != "~" && !kv.eq_ignore_ascii_case("null")) && ok(v)),
+                Node::Seq { items, .. } => items.iter().all(ok),
+                _ => true,
+            }
+        }
+        !raw.iter().any(|e| e.k == "AL") && nodes_from_events(&raw).map(|ns| ns.len() == 1 && matches!(ns[0], Node::Map { .. }) && ok(&ns[0])).unwrap_or(false)
+    };
     for (pname, pol) in POLICIES {
         let (obs, eloc) = observe_tree_policy_loc(text, pol);
         w.put(&Rec { id: format!("{id}-{pname}"), yaml: text, raw: &raw, policy: pname, target: "pairs", obs, eloc, pos: &pos });
+        let (obs, eloc) = observe_discarding(text, pol, false);
+        w.put(&Rec { id: format!("{id}-{pname}-ign"), yaml: text, raw: &raw, policy: pname, target: "ignored", obs, eloc, pos: &pos });
+        if scalar_keys_only {
+            let (obs, eloc) = observe_discarding(text, pol, true);
+            w.put(&Rec { id: format!("{id}-{pname}-unk"), yaml: text, raw: &raw, policy: pname, target: "unknown", obs, eloc, pos: &pos });
+        }
     }
     true
 }
